@@ -102,6 +102,7 @@ type sState struct {
 	limbTerm  map[int]*pt // value of limb arrays (element decoding)
 	geff      []gEffect   // glue domain: effect log
 	gfields   map[string]sVal
+	loops     map[loopKey]*loopHist // stream domain: per loop header history
 	gcells   map[string]int // package-level variables of the analysed package (heap cells)
 }
 
@@ -134,6 +135,12 @@ func (s *sState) clone() *sState {
 		n.gfields = make(map[string]sVal, len(s.gfields))
 		for k, v := range s.gfields {
 			n.gfields[k] = v
+		}
+	}
+	if s.loops != nil {
+		n.loops = make(map[loopKey]*loopHist, len(s.loops))
+		for k, v := range s.loops {
+			n.loops[k] = v
 		}
 	}
 	if s.limbTerm != nil {
